@@ -686,9 +686,17 @@ def irStmt (st : Sexp) : Ir.Stmt :=
 def irCfg (c : Sexp) : Ir.Cfg :=
   match c with
   | .list (.atom "cfg" :: _ :: .atom kind :: .list ps :: _ :: .list bs :: _) =>
+    -- the dominators of every block, by the model of C15 on the dumped predecessor lists
+    let preds : List (List Nat) := bs.map (fun b => match b with
+      | .list [.atom "b", _, _, .list pr, _, _] => pr.filterMap Sexp.nat?
+      | _ => [])
+    let g : Graph.Graph := { n := bs.length, pred := fun i => preds.getD i [] }
+    let domsOf : Nat → List Nat := match Dominators.computeDominators g with
+      | some D => fun i => (List.range bs.length).filter (fun j => D i j)
+      | none => fun _ => []
     { isFunction := kind == "fn", params := ps.map vnameOf,
-      blocks := bs.map (fun b => match b with
-        | .list [.atom "b", _, _, .list pr, _, .list sts] => { stmts := sts.map irStmt, npreds := pr.length }
+      blocks := bs.zipIdx.map (fun bi => match bi.1 with
+        | .list [.atom "b", _, _, .list pr, _, .list sts] => { stmts := sts.map irStmt, npreds := pr.length, doms := domsOf bi.2 }
         | _ => { stmts := [] }) }
   | _ => { isFunction := false, params := [], blocks := [] }
 
